@@ -21,8 +21,10 @@ FILES = ["windpyutils/files.py"]
 VARIANTS = ["MutableRandomLineAccessFile", "MutableMemoryMappedRandomLineAccessFile", "MutableRecordFile",
             "MutableMemoryMappedRecordFile"]
 WORDS = ["alpha", "", "two words", " pad ", "žluť", "日本", "a,b", "x" * 30, "0", "{\"k\":1}", "tab\tx", "end.", "trail\t", "blank ",
-         "vt\x0bff\x0c", "nel\x85ls\u2028"]
-ENDINGS = ["\n", "\n", "\r\n", "\r", ";"]
+         "vt\x0bff\x0c", "nel\x85ls\u2028",
+         # texts that END with a character of one of the line endings below: it belongs to the line
+         "semi;", "bar |", ";", "a;;"]
+ENDINGS = ["\n", "\n", "\r\n", "\r", ";", "\t", " |", "\n", ";"]
 
 
 def build_plan(choice: Choice, tier):
@@ -32,7 +34,7 @@ def build_plan(choice: Choice, tier):
     rec = "Record" in p["variant"]
     # record variants: a JSON record class, or a pass-through record whose text is stored as it is (texts may end
     # with blanks or tabs, which a record file must keep)
-    p["record_class"] = ["json", "raw"][d(2, "record.class")] if rec else None
+    p["record_class"] = ["json", "raw", "csv"][d(3, "record.class")] if rec else None
     n = d(9, "init.n")
     if "MemoryMapped" in p["variant"] and n == 0:
         n = 1
@@ -133,6 +135,15 @@ def build_plan(choice: Choice, tier):
 
 def make_record_class(kind="json"):
     from windpyutils.files import JsonRecord, Record
+    if kind == "csv":
+        # the library's own CSV record: its save() ends with the line terminator of the csv module ("\r\n")
+        from windpyutils.files import CSVRecord
+
+        @dataclass
+        class Csv(CSVRecord):
+            text: str
+            n: int = 0
+        return Csv
     if kind == "raw":
         @dataclass
         class Raw(Record):
@@ -168,7 +179,11 @@ def execute(plan, choice, tmpdir, trace):
     def to_item(s):
         return Rec(s, len(s)) if rec else s
 
+    csv_kind = plan.get("record_class") == "csv"
+
     def line_of(item):
+        if csv_kind:
+            return item.save().rstrip("\r\n")      # the one line the record occupies
         return item.save() if rec else item
 
     src = os.path.join(tmpdir, "source.txt")
@@ -192,12 +207,20 @@ def execute(plan, choice, tmpdir, trace):
             for it in init_items:
                 f.write(f"{pos}\n")
                 pos += len(line_of(it).encode("utf-8")) + 1
-        obj = cls(src, Rec, idx_path) if rec else cls(src, idx_path)
-    else:
-        obj = cls(src, Rec) if rec else cls(src)
+    sched = CoopScheduler(choice, plan["stickiness"])
+    try:
+        if idx_path is not None:
+            obj = cls(src, Rec, idx_path) if rec else cls(src, idx_path)
+        else:
+            obj = cls(src, Rec) if rec else cls(src)
+    except Exception as e:  # noqa
+        # no fault is active while the object is constructed
+        import traceback
+        return ([{"class": "exception", "site": f"constructor:{type(e).__name__}",
+                  "message": f"{plan['variant']}(...) raised {e!r} " + traceback.format_exc()[-400:]}], sched, fp,
+                {"saves": 0, "faulted_saves": 0, "edits": 0, "mixed_state_reads": 0})
     model = list(init_items)
     viol = []
-    sched = CoopScheduler(choice, plan["stickiness"])
     if trace:
         sched.trace = []
     stats = {"saves": 0, "faulted_saves": 0, "edits": 0, "mixed_state_reads": 0}
@@ -432,6 +455,11 @@ def execute(plan, choice, tmpdir, trace):
         if err is not None and not hard:
             v("exception", f"save:{type(err).__name__}:no-fault", f"fault-free save raised {err!r}")
             return
+        if csv_kind and err is None and not hard:
+            # the terminator that csv gives to save() makes the exact bytes a matter of definition: judged by reopening
+            exp = None
+        elif csv_kind:
+            return
         if err is None and hard and fault in ("write-error", "torn", "open-error"):
             # a write error must not be swallowed: the file would be silently incomplete
             exp = "".join(line_of(x) + ending for x in model).encode("utf-8")
@@ -444,7 +472,7 @@ def execute(plan, choice, tmpdir, trace):
         exp = "".join(line_of(x) + ending for x in model).encode("utf-8")
         with open(out, "rb") as f:
             got = f.read()
-        if got != exp:
+        if got != exp and not csv_kind:
             v("save", f"bytes:{'as-handle' if as_handle else 'path'}",
               f"save(ending={ending!r}) wrote {got[:80]!r}... expected {exp[:80]!r}...")
             return
